@@ -16,7 +16,7 @@ What is asserted (and nothing more than the property states):
 * a float operand (float, or a string spelling a non-integer / a number outside i64): the IEEE
   double result of the operation on float(a), float(b) (bit-exact, any NaN for NaN).
   at_least / at_most = max / min (for NaN or +-0 ties either operand passes).  Division / modulo by
-  a float zero: error or the IEEE result (inf / nan), counted.  Float modulo: fmod (truncated),
+  a float zero: an error as well ("division by zero is an error").  Float modulo: fmod (truncated),
   floored and IEEE-754 remainder all pass (the statement does not say which), counted.
 * ceil, floor, round on a float x with -2^63 <= x < 2^63: the neighbouring integer in the documented
   direction, round half away from zero, computed exactly from x.as_integer_ratio(); the result may
@@ -392,17 +392,26 @@ class Checker:
         fa = float(a)
         fb = float(b)
         if fb == 0.0:
+            # "division by zero is an error": also for a float (or float-spelling) zero divisor
             if res["k"] == "err":
                 self.count("divided_by:float-zero-divisor->err")
-                return
-            self.count("divided_by:float-zero-divisor->ieee")
+            else:
+                self.violate("divided_by:zero-divisor-not-error",
+                             "division by a zero divisor (%r) must be an error, observed %s" % (fb, res_text(res)), ev)
+            if res2 is not None:
+                self.float_mod(ev, fa, fb, res2, A[2] or B[2])
+            return
         self.expect_float(ev, "divided_by", res, fdiv(fa, fb), A[2] or B[2])
         if res2 is not None:
             self.float_mod(ev, fa, fb, res2, A[2] or B[2])
 
     def float_mod(self, ev, fa, fb, res, big):
-        if fb == 0.0 and res["k"] == "err":
-            self.count("modulo:float-zero-divisor->err")
+        if fb == 0.0:
+            if res["k"] == "err":
+                self.count("modulo:float-zero-divisor->err")
+            else:
+                self.violate("modulo:zero-divisor-not-error",
+                             "modulo by a zero divisor (%r) must be an error, observed %s" % (fb, res_text(res)), ev)
             return
         if res["k"] != "float":
             self.expect_float(ev, "modulo", res, math.nan, big)
